@@ -130,6 +130,9 @@ func (r *RoundRobin) nextServer() (*server, error) {
 	gcd := r.weightGcd()
 	// Maximum weight across all enabled servers
 	maxWeight := r.maxWeight()
+	if maxWeight == 0 {
+		return nil, errors.New("all servers have 0 weight")
+	}
 
 	for {
 		r.index = (r.index + 1) % len(r.servers)
